@@ -148,7 +148,7 @@ def minimise(mod, v: Violation, budget=400, wall_s=150):
                 break
             try:
                 got = mod.replay(cand)
-            except HarnessError:
+            except Exception:  # noqa: BLE001 a shrink candidate that cannot even be built (e.g. a dropped column a groupby refers to)
                 continue
             hit = [g for g in got if g.klass == v.klass]
             if hit:
@@ -246,7 +246,13 @@ def main_check(prop, tier, seed, runs_override=None, workers=None):
                 print(f"  class={klass} (not minimised: same family as a minimised one or over the per-run budget)\n  detail={v.detail}")
                 reported.append({"class": klass, "replay": path, "occurrences": len(vs), "minimised": False})
             continue
-        got = mod.replay(v.payload)
+        try:
+            got = mod.replay(v.payload)
+        except HarnessError:
+            raise
+        except Exception as e:  # noqa: BLE001 the replay machinery itself failed on this payload: treated as not reproduced
+            print(f"HARNESS-NOTE: replay of class {klass!r} raised {type(e).__name__}: {e}", file=sys.stderr)
+            got = []
         if not any(g.klass == klass for g in got):
             # never report what cannot be replayed; remembered, and a harness error only if nothing at all can be reported
             irreproducible.append((klass, [g.klass for g in got]))
